@@ -128,6 +128,18 @@ fn tree_in_domain(t: &T, vars: &[f64], k: f64) -> bool {
     }
 }
 
+/// largest magnitude among the values of all sub-expressions (the scale against which cancellation in the
+/// root value has to be measured)
+fn max_sub_abs(t: &T, vars: &[f64], k: f64, fk: &dyn Fn(f64) -> f64) -> f64 {
+    let here = eval_ref_f(t, vars, k, fk).abs();
+    let below = match t {
+        T::Bin(_, a, b) => max_sub_abs(a, vars, k, fk).max(max_sub_abs(b, vars, k, fk)),
+        T::Neg(a) | T::Powi(a, _) | T::Un(_, a) => max_sub_abs(a, vars, k, fk),
+        _ => 0.0,
+    };
+    if here.is_finite() { here.max(below) } else { below }
+}
+
 pub fn run_eval(o: &Opts) -> Report {
     let mut rep = Report::new("eval");
     rep.rule = "per primitive: grids over the whole domain x tangents {0,1,-2.5,1e3,...}; binary operators on pairs; powi n in -64..64; random expression trees (depth<=6) through compile_expression at f64 and AD, at points where every sub-expression is interior to its domain by a margin, with tangents in R; D1 accessors and abs_jacobian_det. Non-trivial = the value is finite and the tree has >= 2 operators (expression cases) or the point is inside the open domain (primitive cases); distinct by (op/tree, point, tangent)".into();
@@ -285,7 +297,10 @@ pub fn run_eval(o: &Opts) -> Report {
                 if tree_in_domain(&t, &[x, y], kval) && vf.is_finite() && t.size() >= 3 {
                     rep.nontrivial += 1;
                     let has_pow = src.contains('^') || src.contains("**");
-                    if !close(va.0, vf, if has_pow { 1e-9 } else { 0.0 }, 0.0) { rep.finding("oracle", &["C05"], "tree-value-not-plain", input.clone(), format!("{:e} vs {:e}", va.0, vf)); }
+                    // (pow/powi differ by ulps between AD and f64; where sub-expressions cancel, those ulps are measured
+                    // against the largest sub-expression value, not against the cancelled result)
+                    let sub = if has_pow { max_sub_abs(&t, &[x, y], kval, fk_f) } else { 0.0 };
+                    if !close(va.0, vf, if has_pow { 1e-9 } else { 0.0 }, 1e-12 * sub) { rep.finding("oracle", &["C05"], "tree-value-not-plain", input.clone(), format!("{:e} vs {:e}", va.0, vf)); }
                     // value independent of the tangent, tangent linear in the tangent
                     let v0 = ea.eval(&[AD(x, 0.0), AD(y, 0.0)]);
                     if !same(v0.0, va.0) { rep.finding("oracle", &["C05"], "value-depends-on-tangent", input.clone(), String::new()); }
@@ -431,7 +446,7 @@ pub fn run_lists(o: &Opts) -> Report {
             Err(_) => "panic index".to_string(),
         };
         rep.count(&format!("impl:{}", wire.split(' ').take(2).collect::<Vec<_>>().join("-")));
-        if out.is_err() { rep.finding("oracle", &["C18"], "panic", input.clone(), last_panic()); }
+        if out.is_err() { rep.finding("oracle", &["C18", "C17"], "panic", input.clone(), last_panic()); }
         if let Some(w) = want {
             if wire != format!("ok {}", w) { rep.finding("oracle", &["C18"], "roundtrip-differs", input.clone(), format!("want ok {} got {}", w, wire)); }
         } else if kind == "malformed" {
@@ -478,6 +493,15 @@ pub fn run_lists(o: &Opts) -> Report {
         one(&mut rep, "malformed", poly, false, t.to_string(), None, &mut reqs, &mut impls, &mut labels);
         // with a context that binds x the entry must still be an error value, never a panic
         one(&mut rep, "var-context", poly, true, t.to_string(), None, &mut reqs, &mut impls, &mut labels);
+    }
+    // the variable below every kind of node of the expression tree (safe evaluation recurses through all of them)
+    for w in ["V**2", "V**-1", "V**0", "(V+1)**3", "sin(V)**2", "-V", "--V", "V+1", "1+V", "1-V", "V*2", "2*V", "2/V", "V/2", "V^2", "2^V", "V^V", "(V)", "((V))", "abs(V)", "exp(ln(V))",
+              "pi*V", "V*e", "1 + 2*(3 - V**2)", "sqrt(V**2 + 1)", "2**3 + V", "V**2**1"] {
+        let e = w.replace('V', "x");
+        for (poly, t) in [(false, format!("[{},1]", e)), (false, format!("[1,{}]", e)), (false, format!("[0,1],[2,{}]", e)), (true, format!("[[0,0],[{},1],[2,3]]", e)), (true, format!("[[0,0],[1,1],[2,{}]]", e))] {
+            one(&mut rep, "malformed", poly, false, t.clone(), None, &mut reqs, &mut impls, &mut labels);
+            one(&mut rep, "var-context", poly, true, t, None, &mut reqs, &mut impls, &mut labels);
+        }
     }
     let answers = run_driver_par(&o.drv, &reqs, o.jobs);
     for ((lab, imp), ans) in labels.iter().zip(impls.iter()).zip(answers.iter()) {
